@@ -18,16 +18,6 @@ import (
 
 	"github.com/dpb587/cursorio-go/cursorio"
 	"github.com/dpb587/rdfkit-go/encoding"
-	enchtml "github.com/dpb587/rdfkit-go/encoding/html"
-	"github.com/dpb587/rdfkit-go/encoding/html/htmldefaults"
-	"github.com/dpb587/rdfkit-go/encoding/htmljsonld"
-	"github.com/dpb587/rdfkit-go/encoding/htmlmicrodata"
-	"github.com/dpb587/rdfkit-go/encoding/htmlrdfa"
-	"github.com/dpb587/rdfkit-go/encoding/jsonld"
-	"github.com/dpb587/rdfkit-go/encoding/rdfjson"
-	"github.com/dpb587/rdfkit-go/encoding/rdfxml"
-	"github.com/dpb587/rdfkit-go/encoding/trig"
-	"github.com/dpb587/rdfkit-go/encoding/turtle"
 	"github.com/dpb587/rdfkit-go/rdf"
 	"github.com/dpb587/rdfkit-go/rdf/blanknodes"
 )
@@ -207,126 +197,22 @@ func decode(c cfg, doc []byte) (res result) {
 	capture := c.capture || c.hasInit
 	init := cursorOff(c.init)
 
-	var it iterator
-	var prv encoding.StatementTextOffsetsProvider
-	var err error
+	// every decoder is constructed from an option LIST (opts.go): the setters this configuration asks
+	// for, permuted and split into 1..n option values (replayable: derived from a hash of c and doc)
 	collected := 0
-	switch c.format {
-	case "ttl":
-		dc := turtle.DecoderConfig{}.SetBlankNodeStringFactory(f)
-		if c.capture {
-			dc = dc.SetCaptureTextOffsets(true)
-		}
-		if c.hasInit {
-			dc = dc.SetInitialTextOffset(init)
-		}
-		if c.base != "" {
-			dc = dc.SetDefaultBase(c.base)
-		}
-		dc = dc.SetBaseDirectiveListener(func(d turtle.DecoderEvent_BaseDirective_Data) {
-			res.dirs = append(res.dirs, directive{before: collected, isBase: true, expanded: d.Value})
-		}).SetPrefixDirectiveListener(func(d turtle.DecoderEvent_PrefixDirective_Data) {
-			res.dirs = append(res.dirs, directive{before: collected, prefix: d.Prefix, expanded: d.Expanded})
-		})
-		d, e := turtle.NewDecoder(rd, dc)
-		it, prv, err = d, d, e
-	case "trig":
-		dc := trig.DecoderConfig{}.SetBlankNodeStringFactory(f)
-		if c.capture {
-			dc = dc.SetCaptureTextOffsets(true)
-		}
-		if c.hasInit {
-			dc = dc.SetInitialTextOffset(init)
-		}
-		if c.base != "" {
-			dc = dc.SetDefaultBase(c.base)
-		}
-		dc = dc.SetBaseDirectiveListener(func(d trig.DecoderEvent_BaseDirective_Data) {
-			res.dirs = append(res.dirs, directive{before: collected, isBase: true, expanded: d.Value})
-		}).SetPrefixDirectiveListener(func(d trig.DecoderEvent_PrefixDirective_Data) {
-			res.dirs = append(res.dirs, directive{before: collected, prefix: d.Prefix, expanded: d.Expanded})
-		})
-		d, e := trig.NewDecoder(rd, dc)
-		it, prv, err = d, d, e
-	case "rdfjson":
-		dc := rdfjson.DecoderConfig{}.SetBlankNodeStringFactory(f)
-		if c.capture {
-			dc = dc.SetCaptureTextOffsets(true)
-		}
-		if c.hasInit {
-			dc = dc.SetInitialTextOffset(init)
-		}
-		d, e := rdfjson.NewDecoder(rd, dc)
-		it, prv, err = d, d, e
-	case "rdfxml":
-		dc := rdfxml.DecoderConfig{}.SetBlankNodeStringFactory(f)
-		if c.capture {
-			dc = dc.SetCaptureTextOffsets(true)
-		}
-		if c.hasInit {
-			dc = dc.SetInitialTextOffset(init)
-		}
-		if c.base != "" {
-			dc = dc.SetDefaultBase(c.base)
-		}
-		d, e := rdfxml.NewDecoder(rd, dc)
-		it, prv, err = d, d, e
-	case "jsonld":
-		dc := jsonld.DecoderConfig{}.SetBlankNodeStringFactory(f)
-		if c.capture {
-			dc = dc.SetCaptureTextOffsets(true)
-		}
-		if c.hasInit {
-			dc = dc.SetInitialTextOffset(init)
-		}
-		if c.base != "" {
-			dc = dc.SetDefaultBase(c.base)
-		}
-		d, e := jsonld.NewDecoder(rd, dc)
-		it, prv, err = d, d, e
-	case "html":
-		dc := htmldefaults.DecoderConfig{}
-		if c.capture {
-			dc = dc.SetCaptureTextOffsets(true)
-		}
-		if c.hasInit {
-			dc = dc.SetInitialTextOffset(init)
-		}
-		if c.base != "" {
-			dc = dc.SetLocation(c.base)
-		}
-		d, e := htmldefaults.NewDecoder(rd, dc)
-		it, prv, err = d, d, e
-	case "rdfa", "microdata", "htmljsonld":
-		hc := enchtml.DocumentConfig{}
-		if c.capture {
-			hc = hc.SetCaptureTextOffsets(true)
-		}
-		if c.hasInit {
-			hc = hc.SetInitialTextOffset(init)
-		}
-		if c.base != "" {
-			hc = hc.SetLocation(c.base)
-		}
-		hdoc, e := enchtml.ParseDocument(rd, hc)
-		if e != nil {
-			err = e
-			break
-		}
-		switch c.format {
-		case "rdfa":
-			d, e := htmlrdfa.NewDecoder(hdoc, htmlrdfa.DecoderConfig{}.SetBlankNodeStringFactory(f))
-			it, prv, err = d, d, e
-		case "microdata":
-			d, e := htmlmicrodata.NewDecoder(hdoc, htmlmicrodata.DecoderConfig{})
-			it, prv, err = d, d, e
-		default:
-			d, e := htmljsonld.NewDecoder(hdoc, htmljsonld.DecoderConfig{})
-			it, prv, err = d, d, e
-		}
-	default:
-		err = fmt.Errorf("unknown format %q", c.format)
+	env := &optEnv{
+		bases:     []string{c.base, "http://wrong-base.example/decoy/"},
+		factories: []blanknodes.StringFactory{f, blanknodes.NewStringFactory()},
+		onBase: func(_ int, v string) {
+			res.dirs = append(res.dirs, directive{before: collected, isBase: true, expanded: v})
+		},
+		onPrefix: func(_ int, p, e string) {
+			res.dirs = append(res.dirs, directive{before: collected, prefix: p, expanded: e})
+		},
 	}
+	cc := c
+	cc.init = off{int64(init.Byte), init.LineColumn[0], init.LineColumn[1]}
+	it, prv, err := openDecoder(c.format, specOf(cc, doc), env, rd)
 	_ = capture
 	if err == nil && it != nil {
 		for it.Next() {
